@@ -79,6 +79,14 @@ def _update_gaps(self, timestamp, newest, record_as_missing):
         self._cleanup_gaps()
 """
 
+# The same method without the `len(self._gaps) > 0` guard around `_remove_gap`: `found_in_gaps` (some gap contains the
+# timestamp) already implies a non-empty gap list — `isMissing_pos` in Lemmas/RingBufferTie.lean — so the guard is redundant.
+SK_UPDATE_GAPS_NOGUARD = SK_UPDATE_GAPS.replace("""            if len(self._gaps) > 0:
+                self._remove_gap(timestamp)
+""", """            self._remove_gap(timestamp)
+""")
+assert SK_UPDATE_GAPS_NOGUARD != SK_UPDATE_GAPS
+
 SK_IS_MISSING = """
 def is_missing(self, timestamp):
     return any((g.contains(timestamp) for g in self._gaps))
@@ -139,8 +147,8 @@ def generate(repo: pathlib.Path) -> str:
     def emit_int(name: str, params: str, body: str, doc: str) -> None:
         out.append(f"/-- {doc} -/\ndef {name} {params} : Int := {body}\n")
 
-    def holes(cls: str, name: str, pattern: str) -> dict[str, ast.expr]:
-        return match(find_method(buf, cls, name), [pattern], f"{cls}.{name}")[1]
+    def holes(cls: str, name: str, *patterns: str) -> dict[str, ast.expr]:
+        return match(find_method(buf, cls, name), list(patterns), f"{cls}.{name}")[1]
 
     # ---- Gap.contains
     h = holes("Gap", "contains", SK_CONTAINS)
@@ -173,7 +181,7 @@ def generate(repo: pathlib.Path) -> str:
     holes("OrderedRingBuffer", "has_value", SK_HAS_VALUE)
 
     # ---- _update_gaps
-    h = holes("OrderedRingBuffer", "_update_gaps", SK_UPDATE_GAPS)
+    h = holes("OrderedRingBuffer", "_update_gaps", SK_UPDATE_GAPS, SK_UPDATE_GAPS_NOGUARD)
     ug = {**COMMON, "newest": "newest", "found_in_gaps": "(foundInGaps = true)"}
     emit_prop("ugJump", "(selfNewest newest fullRange : Int)", prop(h["jump"], ug),
               "`_update_gaps`: valid value so far ahead that every older slot leaves the window")
